@@ -400,4 +400,9 @@ def _truthy(run, repo, world):
                     isinstance(node.body[0], ast.Return) and unparse(
                         node.body[0].value) == node.test.id:
                 sites += 1
+            # the same dispatch written with filter(None, ..) / `or`
+            if isinstance(node, ast.Call) and unparse(
+                    node.func) == "filter" and node.args and unparse(
+                        node.args[0]) == "None":
+                sites += 1
     run.floor("`if r: return r` dispatch sites", sites, 1)
